@@ -5,9 +5,15 @@
        operation paired with the answer it got) leads the provider with
        configuration g and registered clients cl from the empty storage to st;
        every history executed by [run] is such a trace (C16_histories_are_traces).
-   [poll cl st r cr dc now f] - the answer of router r to a device-code token
-       request with credentials cr for device code dc at time now (ns), f = an
-       injected failure of GetDeviceAuthorizatonState (FDeadline = time-out).
+   [poll g cl st r cr dc now f host fwd] - the answer of router r to a
+       device-code token request with credentials cr for device code dc at time
+       now (ns), arriving under Host host / Forwarded host fwd; f = an injected
+       failure of GetDeviceAuthorizatonState (FDeadline = time-out). A token
+       answer [RTokens t] is projected to t_sub (subject of the access token),
+       t_client (the client the access token is recorded for), t_scopes (scope of
+       the answer), t_granted (scopes recorded with the access token), t_id
+       ((sub, iss) of the ID token), t_at_iss (iss of a JWT access token),
+       t_refresh (a refresh token came along).
    [issued_ev tr dc uc cid scopes exp] - in the past a device authorization
        request by the client claiming to be cid, asking for scopes, was answered
        with device code dc and user code uc, expiring at exp.
@@ -20,10 +26,10 @@ From OIDC Require Import Lib C16_UserCode C16_UserCode_proofs C16_Device C16_spe
    scopes now granted) together with a user code which the user then approved as
    the subject the tokens carry, and never denied; and storage did not fail. *)
 Theorem C16_tokens_only_after_approval : forall g cl tr st, reach g cl tr st ->
-  forall r cr dc now f sub client scopes idsub rf,
-  poll cl st r cr dc now f = RTokens sub client scopes idsub rf ->
+  forall r cr dc now f host fwd t,
+  poll g cl st r cr dc now f host fwd = RTokens t ->
   exists uc exp,
-    issued_ev tr dc uc (claimed cr) scopes exp /\ approved_ev tr uc sub /\
+    issued_ev tr dc uc (claimed cr) (t_scopes t) exp /\ approved_ev tr uc (t_sub t) /\
     ~ denied_ev tr uc /\ f = FNone.
 Proof. exact tokens_only_after_approval. Qed.
 Print Assumptions C16_tokens_only_after_approval.
@@ -33,13 +39,44 @@ Print Assumptions C16_tokens_only_after_approval.
    and the poll proves that identity (a client registered with auth method none
    by naming itself, any other client by its registered secret). *)
 Theorem C16_only_to_initiator : forall g cl tr st, reach g cl tr st ->
-  forall r cr dc now f sub client scopes idsub rf,
-  poll cl st r cr dc now f = RTokens sub client scopes idsub rf ->
-  client = claimed cr /\
-  (exists uc exp, issued_ev tr dc uc (claimed cr) scopes exp) /\
+  forall r cr dc now f host fwd t,
+  poll g cl st r cr dc now f host fwd = RTokens t ->
+  t_client t = claimed cr /\
+  (exists uc exp, issued_ev tr dc uc (claimed cr) (t_scopes t) exp) /\
   exists c, find_client cl (claimed cr) = Some c /\ proves_identity c cr = true.
 Proof. exact only_to_initiator. Qed.
 Print Assumptions C16_only_to_initiator.
+
+(* The issued tokens carry the approving user's subject and the requested
+   scopes: for the list [requested] of the device authorization request that
+   was answered with this device code, the scope of the token answer and the
+   scopes recorded with the access token ARE that list (element by element:
+   nothing dropped, added, reordered or merged, whatever repetitions or order
+   the request had - hence equal as sets); the ID token exists iff openid was
+   requested and carries the approving subject; ID token and JWT access token
+   name the issuer of THIS token request ([request_issuer]: static, or derived
+   from this request's Host / Forwarded host - never empty, never another
+   request's); a refresh token comes along iff offline_access was requested and
+   the client has the refresh_token grant. *)
+Theorem C16_tokens_carry_subject_and_scopes : forall g cl tr st, reach g cl tr st ->
+  forall r cr dc now f host fwd t,
+  poll g cl st r cr dc now f host fwd = RTokens t ->
+  exists uc exp requested c,
+    issued_ev tr dc uc (claimed cr) requested exp /\ approved_ev tr uc (t_sub t) /\
+    find_client cl (claimed cr) = Some c /\
+    t_scopes t = requested /\ t_granted t = requested /\
+    (forall s, In s requested <-> In s (t_scopes t)) /\
+    t_id t = (if string_in "openid" requested then Some (t_sub t, request_issuer g host fwd) else None) /\
+    t_at_iss t = (if c_jwt c then Some (request_issuer g host fwd) else None) /\
+    t_refresh t = (string_in "offline_access" requested && c_refresh c).
+Proof. exact tokens_carry. Qed.
+Print Assumptions C16_tokens_carry_subject_and_scopes.
+
+(* the scope comparison of the property predicate decides equality as sets *)
+Theorem C16_same_scopes_is_set_equality : forall a b,
+  same_scopes a b = true <-> (forall s, In s a <-> In s b).
+Proof. exact same_scopes_iff. Qed.
+Print Assumptions C16_same_scopes_is_set_equality.
 
 (* The answers to a poll by a registered device client c presenting itself
    canonically (public: bare client_id; with a secret: HTTP Basic), on either
@@ -49,10 +86,10 @@ Print Assumptions C16_only_to_initiator.
    (approving subject, requested scopes) after approval, otherwise
    expired_token after expiry and authorization_pending before. *)
 Theorem C16_poll_answers : forall g cl tr st, reach g cl tr st ->
-  forall r cr dc now f c,
+  forall r cr dc now f host fwd c,
   find_client cl (claimed cr) = Some c -> canonical c cr = true -> c_dev c = true ->
   client_ok c = true -> dc <> "" ->
-  let x := poll cl st r cr dc now f in
+  let x := poll g cl st r cr dc now f host fwd in
   (f = FDeadline -> x = RErr "slow_down") /\
   (f = FNone ->
      ((forall uc cid sc ex, issued_ev tr dc uc cid sc ex -> cid <> c_id c) ->
@@ -61,7 +98,8 @@ Theorem C16_poll_answers : forall g cl tr st, reach g cl tr st ->
         (denied_ev tr (d_user d) -> x = RErr "access_denied") /\
         (~ denied_ev tr (d_user d) -> (exists sub, approved_ev tr (d_user d) sub) ->
            approved_ev tr (d_user d) (d_subject d) /\
-           exists idsub rf, x = RTokens (d_subject d) (c_id c) (d_scopes d) idsub rf) /\
+           exists t, x = RTokens t /\ t_sub t = d_subject d /\ t_client t = c_id c /\
+                     t_scopes t = d_scopes d /\ t_granted t = d_scopes d) /\
         (~ denied_ev tr (d_user d) -> (forall sub, ~ approved_ev tr (d_user d) sub) ->
            x = RErr (if (now >? d_expires d)%Z then "expired_token" else "authorization_pending")))).
 Proof. exact poll_answers. Qed.
